@@ -129,7 +129,7 @@ Definition decode (e : encoding) (codes : list Z) : list Z :=
 Definition complements_pinned : list (Z * Z) := [(65, 84); (71, 67); (67, 71); (84, 65); (78, 78)].
 Definition complements_fixed : list (Z * Z) :=
   complements_pinned ++ map (fun p => (lower (fst p), lower (snd p))) complements_pinned.
-Definition complements : list (Z * Z) := complements_pinned.     (* <- the one-line switch *)
+Definition complements : list (Z * Z) := complements_fixed.     (* <- the one-line switch *)
 
 (* dna.py:29-33  values = zeros(128); values[ord(key)] = ord(value) *)
 Definition ascii_values (keys : list (Z * Z)) : list Z := set_many (repeat 0 128) keys.
